@@ -179,7 +179,29 @@ func genC05(rng *rand.Rand, n int, emit func(Case), dist map[string]int) {
 				case 0, 1:
 					key, v := fmt.Sprintf("k%d", rng.Intn(4)), fmt.Sprintf("val%d", st.id)
 					keys = append(keys, key)
-					steps = append(steps, func(c echo.Context) { c.Set(key, v) })
+					extra := rng.Intn(6)
+					hookID++
+					swapHook := hookID
+					hookOwner[swapHook] = st.id
+					steps = append(steps, func(c echo.Context) {
+						c.Set(key, v)
+						switch extra {
+						case 0:
+							// the handler swaps in its own request object (a clone carrying a marker header) ...
+							r2 := c.Request().Clone(c.Request().Context())
+							r2.Header.Set("X-Req", c.Request().Header.Get("X-Req"))
+							r2.Header.Set("X-Swapped-By", v)
+							c.SetRequest(r2)
+						case 1:
+							// ... or its own Response object over the same writer: neither may be seen by a later request
+							nr := echo.NewResponse(c.Response().Writer, c.Echo())
+							nr.Before(func() { cur.fired = append(cur.fired, swapHook) })
+							c.SetResponse(nr)
+						}
+					})
+					if extra <= 1 {
+						dist["handler_replaced_request_or_response"]++
+					}
 					st.prog = append(st.prog, L(I(0), S(key), S(v)))
 				case 2:
 					id := 100 + st.id
